@@ -258,7 +258,16 @@ class C12(runner.Check):
 		# probabilities and/or pseudocount (nothing may be carried over)
 		if r.chance(0.6):
 			w2 = copy.deepcopy(world)
-			mode = r.choice(["pwm", "eps", "both"])
+			mode = r.choice(["pwm", "eps", "both", "seqs", "seqs"]) if leg == "real" else \
+				r.choice(["pwm", "eps", "both"])
+			if mode == "seqs":
+				# the FASTA at the same path is regenerated (stale .fai next to it)
+				new = []
+				for s_ in reversed(w2["seqs"]):
+					cut = r.randint(0, min(5, max(0, len(s_) - 1)))
+					new.append(s_[cut:] + "".join(r.choice("ACGT") for _ in range(r.randint(0, 9))))
+				w2["seqs"] = new
+				w2["regenerated_fasta"] = True
 			if mode in ("pwm", "both"):
 				for m in w2["motifs"]:
 					m["pwm"] = gen_pwm(r, len(m["pwm"][0]))
@@ -577,6 +586,11 @@ class C12(runner.Check):
 			if case.get("world2") and not out.violations:
 				w2 = case["world2"]
 				genome.write_meme(mm, [(m["name"], m["pwm"]) for m in w2["motifs"]])
+				if w2.get("regenerated_fasta"):
+					genome.write_fasta(fa, list(zip(names, w2["seqs"])), width=
+						case["fasta"]["width"] + 3, keep_index=True)
+					seq_lens = [len(s_) for s_ in w2["seqs"]]
+					out.bump("probe.second_scan_regenerated_fasta_same_path")
 				try:
 					with numpy.errstate(all="ignore"):
 						res = self.fm.fimo(mm, fa, **w2["cfg"])
